@@ -608,4 +608,114 @@ theorem rfLines_eq_keyOrder (l : List (Int × Int)) (hn : nodupKeys l = true) :
       rfl
   exact hcongr _ (fun e he => hperm.mem_iff.mp he)
 
+/-! ## countMutationSiteBranch: the whole recursion does not depend on how Go lists the child distributions -/
+
+theorem keys_put {K V} [BEq K] [LawfulBEq K] (m : List (K × V)) (k : K) (v : V) :
+    (put m k v).map (·.1) = if m.any (fun e => e.1 == k) then m.map (·.1) else m.map (·.1) ++ [k] := by
+  unfold put
+  split
+  · rw [List.map_map]
+    apply List.map_congr_left
+    intro e _
+    simp only [Function.comp]
+    split
+    · rename_i h; simpa using (show e.1 = k by simpa using h).symm
+    · rfl
+  · simp
+
+theorem nodupKeys_put {K V} [BEq K] [LawfulBEq K] (m : List (K × V)) (k : K) (v : V)
+    (h : nodupKeys m = true) : nodupKeys (put m k v) = true := by
+  rw [nodupKeys_iff] at *
+  rw [keys_put]
+  split
+  · exact h
+  · rename_i hany
+    rw [List.nodup_append]
+    refine ⟨h, by simp, ?_⟩
+    intro a ha b hb
+    have hbk : b = k := by simpa using hb
+    subst hbk
+    intro hab
+    subst hab
+    obtain ⟨e, he, hk⟩ := List.mem_map.mp ha
+    exact hany (List.any_eq_true.mpr ⟨e, he, by simp [hk]⟩)
+
+theorem nodupKeys_charDistLoop (cd l : List (Char × Nat)) (h : nodupKeys cd = true) :
+    nodupKeys (charDistLoop cd l) = true := by
+  unfold charDistLoop
+  induction l generalizing cd with
+  | nil => exact h
+  | cons e t ih =>
+    rw [List.foldl_cons]
+    apply ih
+    cases get cd e.1 with
+    | none => exact nodupKeys_put _ _ _ h
+    | some old => exact nodupKeys_put _ _ _ h
+
+/-- on a listing with distinct keys the accumulation step sees each character once -/
+theorem cdStep_foldl_nodup (c : Char) : ∀ (l : List (Char × Nat)) (o : Option Nat), nodupKeys l = true →
+    l.foldl (cdStep c) o = match get l c with
+      | none => o
+      | some v => some (match o with | none => v | some old => old + v)
+  | [], o, _ => by simp [get]
+  | (k, v) :: t, o, hn => by
+    have hn' := hn
+    simp only [nodupKeys, Bool.and_eq_true, Bool.not_eq_true'] at hn'
+    rw [List.foldl_cons, cdStep_foldl_nodup c t _ hn'.2]
+    by_cases hk : k = c
+    · subst hk
+      have hnone : get t k = none := lookup_none_of_not_any t k (by simp [hn'.1])
+      simp [cdStep, hnone, get, List.lookup_cons]
+    · have h1 : (k == c) = false := by simpa using hk
+      have h2 : (c == k) = false := by simpa using fun h => hk h.symm
+      simp [cdStep, h1, get, List.lookup_cons, h2]
+
+/-- the merged distribution, as a lookup function, depends on the two maps only through their lookups -/
+theorem charDistLoop_get_congr (cd cd' l l' : List (Char × Nat))
+    (hl : nodupKeys l = true) (hl' : nodupKeys l' = true)
+    (hcd : ∀ c, get cd c = get cd' c) (hll : ∀ c, get l c = get l' c) :
+    ∀ c, get (charDistLoop cd l) c = get (charDistLoop cd' l') c := by
+  intro c
+  rw [charDist_fold, charDist_fold, cdStep_foldl_nodup c l _ hl, cdStep_foldl_nodup c l' _ hl', hcd c, hll c]
+
+/-- the relation between two runs of the recursion with different listings -/
+def CmsRel (a b : Nat × List (Char × Nat) × List MutObs) : Prop :=
+  a.1 = b.1 ∧ (∀ c, get a.2.1 c = get b.2.1 c) ∧ a.2.2 = b.2.2 ∧ nodupKeys a.2.1 = true ∧ nodupKeys b.2.1 = true
+
+mutual
+theorem cmsNode_rel (charOf : String → Char) (o₁ o₂ : List (Char × Nat) → List (Char × Nat))
+    (h₁ : ∀ l, (o₁ l).Perm l) (h₂ : ∀ l, (o₂ l).Perm l) (p : Option Char) :
+    ∀ t : T, CmsRel (cmsNode charOf o₁ p t) (cmsNode charOf o₂ p t)
+  | .node d pp kids => by
+    unfold cmsNode
+    by_cases hk : kids.isEmpty = true
+    · simp only [hk, if_true]
+      refine ⟨rfl, fun _ => rfl, rfl, by decide, by decide⟩ <;> simp [nodupKeys]
+    · simp only [hk, Bool.false_eq_true, if_false]
+      have r := cmsKids_rel charOf o₁ o₂ h₁ h₂ (charOf d.name) (0, [], []) (0, [], [])
+        ⟨rfl, fun _ => rfl, rfl, by simp [nodupKeys], by simp [nodupKeys]⟩ kids
+      obtain ⟨r1, r2, r3, r4, r5⟩ := r
+      refine ⟨r1, r2, ?_, r4, r5⟩
+      simp only [r1, r2 (charOf d.name), r3]
+theorem cmsKids_rel (charOf : String → Char) (o₁ o₂ : List (Char × Nat) → List (Char × Nat))
+    (h₁ : ∀ l, (o₁ l).Perm l) (h₂ : ∀ l, (o₂ l).Perm l) (cur : Char)
+    (a b : Nat × List (Char × Nat) × List MutObs) (hab : CmsRel a b) :
+    ∀ k : Kids, CmsRel (cmsKids charOf o₁ cur a k) (cmsKids charOf o₂ cur b k)
+  | [] => by unfold cmsKids; exact hab
+  | (e, t) :: r => by
+    unfold cmsKids
+    have c := cmsNode_rel charOf o₁ o₂ h₁ h₂ (some cur) t
+    obtain ⟨a1, a2, a3, a4, a5⟩ := hab
+    obtain ⟨c1, c2, c3, c4, c5⟩ := c
+    apply cmsKids_rel charOf o₁ o₂ h₁ h₂ cur _ _ _ r
+    refine ⟨by simp only [a1, c1], ?_, by simp only [a3, c3], nodupKeys_charDistLoop _ _ a4, nodupKeys_charDistLoop _ _ a5⟩
+    apply charDistLoop_get_congr
+    · exact nodupKeys_perm (h₁ _).symm c4
+    · exact nodupKeys_perm (h₂ _).symm c5
+    · exact a2
+    · intro c
+      rw [get_perm (h₁ _) (nodupKeys_perm (h₁ _).symm c4) c, get_perm (h₂ _) (nodupKeys_perm (h₂ _).symm c5) c]
+      exact c2 c
+end
+
 end Gotree.C18
